@@ -8,7 +8,7 @@ inductive ErrKind where
   | expectedArrayElementType | failedToTruncate | invalidTruncatePart | failedToParseTimestamp | failedToConvert
   -- ExecutionError kinds raised by the engines
   | groupKeyNotAvailable | expectedBoolValue | expectedStringValue | cannotCreateArrayOfNullType
-  | distinctRequiresColumn | internalError | tableNotFound
+  | distinctRequiresColumn | internalError | tableNotFound | failReadFile | failOpenFile
   deriving DecidableEq, Repr, Inhabited
 
 def ErrKind.name : ErrKind → String
@@ -22,6 +22,7 @@ def ErrKind.name : ErrKind → String
   | .groupKeyNotAvailable => "GroupKeyNotAvailable" | .expectedBoolValue => "ExpectedBoolValue"
   | .expectedStringValue => "ExpectedStringValue" | .cannotCreateArrayOfNullType => "CannotCreateArrayOfNullType"
   | .distinctRequiresColumn => "DistinctRequiresColumn" | .internalError => "InternalError" | .tableNotFound => "TableNotFound"
+  | .failReadFile => "FailReadFile" | .failOpenFile => "FailOpenFile"
 
 /-- result of running a piece of sqlgrep: a value, a reported error, a Rust panic (explicit, so that
 "never panics" is a statement), or a request for an external fact the case did not ship -/
